@@ -158,6 +158,20 @@ Theorem C02_udivides_prefix_refuted :
 Proof. exact History_C02.C02_udivides_prefix_refuted. Qed.
 Print Assumptions C02_udivides_prefix_refuted.
 
+(* REFUTED - KNOWN FINDING udivides-composite-zero-divisors (not repaired; known_findings.txt): over a COMPOSITE modulus the
+   faithful model of the CURRENT lp_upolynomial_divides answers false for a true multiple.  Z_6: (x+2)(x+3) = x^2 + 5x
+   = x^2 - x; the lowest coefficient 2 of the divisor does not divide the lowest coefficient -1 of the product in Z_6
+   (the early exits and the degree bookkeeping assume an integral domain). *)
+Theorem C02_udivides_composite_refuted :
+  exists (M : Z) (p q d : list Z),
+    (exists a b : Z, 1 < a /\ 1 < b /\ M = a * b)%Z /\
+    umul_ring (Some M) p d = q /\ udivides (Some M) false p q = Some false.
+Proof.
+  exists 6%Z, [2; 1]%Z, [0; -1; 1]%Z, [3; 1]%Z.
+  split; [exists 2%Z, 3%Z; repeat split; reflexivity|]. split; vm_compute; reflexivity.
+Qed.
+Print Assumptions C02_udivides_composite_refuted.
+
 Theorem C02_dense_power_prefix_refuted :
   exists A B P Q R,
     reduce (fun _ _ => None) (fun a _ => a) missed_power_prefix PseudoDense 20 A B = Some (P, Q, R) /\
@@ -259,3 +273,23 @@ Definition C02_divides_iff_full_statement : Prop :=
   forall lcmf fuel C1 C2 b, m_divides lcmf fuel C1 C2 = Some b ->
   (b = true <-> exists Q, forall rho, mp_eval rho C2 = (mp_eval rho Q * mp_eval rho C1)%Z).
 
+
+(* FULL (the field argument behind the case kind `pdivides`, Division.v Part III): in D[x] over an integral domain D
+   (for lp_polynomial_divides in a Z_p context: D = F_p[all variables but the main variable of A]) a dividend
+   B = A*Q + R with R of lower degree than A is a multiple of A EXACTLY when R = 0.  `pdivides_expected` is this
+   decision on the reference representation (R reduced mod p is zero / has lower degree in A's main variable);
+   that the reference representation denotes elements of D[x] is C01's canonical-form theory, not restated here. *)
+Theorem C02_pdivides_decision :
+  forall (D : idomainType) (A Q R : {poly D}), (size R < size A)%N ->
+  ((exists S : {poly D}, A * Q + R = S * A) <-> R = 0).
+Proof.
+move=> D A Q R ltRA; split=> [[S eqS]|->]; last by exists Q; rewrite addr0 mulrC.
+have eR : R = (S - Q) * A by rewrite mulrBl -eqS [Q * A]mulrC addrC addKr.
+have [/eqP SQ0|SQn0] := boolP (S - Q == 0); first by rewrite eR SQ0 mul0r.
+have An0 : A != 0 by apply: contraTneq ltRA => ->; rewrite size_poly0.
+move: ltRA; rewrite eR size_mul // -subn1 -addnBA ?size_poly_gt0 // ltnNge.
+have: (0 < size (S - Q)%R)%N by rewrite size_poly_gt0.
+have: (0 < size A)%N by rewrite size_poly_gt0.
+by case: (size A) => // n _; case: (size (S - Q)%R) => // m _; rewrite subn1 /= addSn ltnS leq_addl.
+Qed.
+Print Assumptions C02_pdivides_decision.
